@@ -384,9 +384,15 @@ pub fn record(args: &Args) {
                             }
                             clips.push("0.6".into());
                         }
-                        let nclips = if thorough { clips.len() } else { 2.min(clips.len()) };
-                        for ci in 0..nclips {
-                            let clip = clips[(ci + gi) % clips.len()].clone();
+                        // quick: the threshold 0.6 (removes every minority action: the pruned profile often has the
+                        // SAME regret, which is where "strictly lower" matters) and one of the others in turn
+                        let chosen: Vec<String> = if thorough || clips.len() <= 2 {
+                            clips.clone()
+                        } else {
+                            vec![clips[(gi + bi) % (clips.len() - 1)].clone(), clips[clips.len() - 1].clone()]
+                        };
+                        for (ci, clip) in chosen.iter().enumerate() {
+                            let clip = clip.clone();
                             let clipv: f64 = clip.parse().unwrap();
                             group += 1;
                             let refsol = reference(&t, d, budget.parse().unwrap(), maxreg.parse().unwrap(), if nthreads == 0 { 1 } else { nthreads }, clipv).ok();
